@@ -9,7 +9,12 @@ RULE = ("histories of Library.add (single, list, fail_on_duplicate_key), remove 
         "random stream (more twins, a failed block, an implicit comment) - where arguments are universe blocks, blocks "
         "currently held (incl. duplicate wrappers) or the duplicate inside a held wrapper; calls that raise are part of "
         "the histories. All histories over a 32-call alphabet to depth 3 (quick); depth 4 over 20 calls and depth 5 "
-        "over 11 calls (thorough); random histories to depth 30; corpus: the witness of the repaired strings-order defect. After EVERY call all eight views are compared with "
+        "over 11 calls (thorough); random histories to depth 30; corpus: the witness of the repaired strings-order defect. "
+        "The two keys of the universe are also instantiated with boundary keys (empty string, one blank, a tab, '0', keys "
+        "differing only in letter case, 'ID' / 'ENTRYTYPE', 'None', non-ASCII): all histories to depth 2 over the 32-call "
+        "alphabet and depth 3 over 11 calls for fixed key pairs (quick; one level deeper in thorough) plus random "
+        "histories with random key pairs; an oracle-only stream uses keys that are not plain str (None, 0, False, 0.0, "
+        "(), b'', str subclasses that are falsy / report length 0). After EVERY call all eight views are compared with "
         "the model by object identity and checked against the property. distinct = distinct history; non-trivial = "
         "some call wraps a duplicate, raises, removes or replaces a held block")
 TRUSTED = ["object identity observed with id() on objects kept alive by the harness; wrapper objects are numbered by "
@@ -35,6 +40,52 @@ UNI13 = UNI8 + [
     ["I", "c", 6, None],                                   # 12 ImplicitComment with the content of C
 ]
 E0, E0T, E1, E2, S0, S1, P, C = range(8)
+
+# Key instantiations.  The universe is written with the two keys "a" and "b"; an input may carry "keys": [ka, kb]
+# (plain strings, compared with the model) or "keyobjs": [da, db] (descriptors of keys that are not plain str; these
+# cases have no counterpart in the model and are judged by the oracle alone).  A key is a dict key and nothing else
+# for the library: nothing in the property lets its truth value, length or spelling matter.
+KEYPAIRS = [("", "0"), ("0", ""), (" ", ""), ("A", "a"), ("ID", "ENTRYTYPE"), ("", "\t")]
+BOUNDARY_KEYS = ["", "", "", " ", "\t", "0", "a", "A", "b", "ID", "ENTRYTYPE", "None", "False", "\u00e9", "\u00a0", "  "]
+KEYOBJS = [["s", ""], ["s", "a"], ["none"], ["int", 0], ["int", 1], ["bool", 0], ["bool", 1], ["float", 0.0],
+           ["tuple"], ["bytes", ""], ["bytes", "a"], ["sub", "", "falsy"], ["sub", "a", "falsy"], ["sub", "a", "len0"],
+           ["sub", "", "plain"], ["sub", "a", "plain"], ["sub", "0", "len0"]]
+
+
+class FalsyStr(str):
+    """equal to (and hashing like) the plain string, but `not key` is True"""
+    def __bool__(self):
+        return False
+
+
+class Len0Str(str):
+    """equal to (and hashing like) the plain string, but len(key) == 0"""
+    def __len__(self):
+        return 0
+
+
+class SubStr(str):
+    pass
+
+
+def make_key(d):
+    """a NEW key object per call where the type allows (twins then have equal, not identical keys)"""
+    t = d[0]
+    if t == "s":
+        return d[1]
+    if t == "none":
+        return None
+    if t == "int":
+        return int(d[1])
+    if t == "bool":
+        return bool(d[1])
+    if t == "float":
+        return float(d[1])
+    if t == "tuple":
+        return ()
+    if t == "bytes":
+        return d[1].encode()
+    return {"falsy": FalsyStr, "len0": Len0Str, "plain": SubStr}[d[2]](d[1])
 
 
 def U(j):
@@ -131,18 +182,57 @@ def generate(rng, tier):
         k = rng.randint(0, 6)
         cases.append({"stream": "ctor", "input": {"uni": 13, "ctor": [rng.randrange(13) for _ in range(k)],
                                                    "ops": [rand_op(rng, 13) for _ in range(rng.randint(0, 6))]}})
+    # ---- boundary keys (all random draws below come after the streams above, which therefore stay as they were)
+    for kp in KEYPAIRS:
+        for h in itertools.product(ALPHA32, repeat=2):
+            cases.append({"stream": "keys_exh2", "input": {"uni": 8, "keys": list(kp), "ops": list(h)}})
+    for kp in (KEYPAIRS[:2] if quick else KEYPAIRS):
+        for h in itertools.product(ALPHA11, repeat=3):
+            cases.append({"stream": "keys_exh3", "input": {"uni": 8, "keys": list(kp), "ops": list(h)}})
+    if not quick:
+        for kp in KEYPAIRS[:2]:
+            for h in itertools.product(ALPHA32, repeat=3):
+                cases.append({"stream": "keys_exh3w", "input": {"uni": 8, "keys": list(kp), "ops": list(h)}})
+        for kp in KEYPAIRS[:3]:
+            for h in itertools.product(ALPHA11, repeat=4):
+                cases.append({"stream": "keys_exh4", "input": {"uni": 8, "keys": list(kp), "ops": list(h)}})
+    for _ in range(300 if quick else 6000):
+        ka = rng.choice(BOUNDARY_KEYS)
+        kb = ka if rng.random() < 0.1 else rng.choice(BOUNDARY_KEYS)
+        n = rng.randint(1, 30)
+        inp = {"uni": 13, "keys": [ka, kb], "ops": [rand_op(rng, 13) for _ in range(n)]}
+        if rng.random() < 0.15:
+            inp["ctor"] = [rng.randrange(13) for _ in range(rng.randint(0, 6))]
+        cases.append({"stream": "keys_random", "input": inp})
+    # keys that are not plain str: oracle only
+    for da in KEYOBJS:
+        for h in itertools.product(ALPHA11, repeat=2):
+            cases.append({"stream": "keyobj_exh2", "input": {"uni": 8, "keyobjs": [da, ["s", "b"]], "ops": list(h)}})
+    for _ in range(150 if quick else 3000):
+        da = rng.choice(KEYOBJS)
+        db = da if rng.random() < 0.1 else rng.choice(KEYOBJS)
+        n = rng.randint(1, 20)
+        cases.append({"stream": "keyobj_random", "input": {"uni": 13, "keyobjs": [da, db],
+                                                            "ops": [rand_op(rng, 13) for _ in range(n)]}})
     return cases
 
 
-def build_universe(n):
+def build_universe(n, keys=None, keyobjs=None):
     from bibtexparser import model as M
     out = []
+
+    def key(k):
+        j = "ab".index(k)
+        if keyobjs is not None:
+            return make_key(keyobjs[j])
+        return keys[j] if keys is not None else k
+
     for d in (UNI8 if n == 8 else UNI13):
         t = d[0]
         if t == "E":
-            out.append(M.Entry(d[1], d[2], [M.Field(k, v, ln) for k, v, ln in d[3]], d[4], d[5]))
+            out.append(M.Entry(d[1], key(d[2]), [M.Field(k, v, ln) for k, v, ln in d[3]], d[4], d[5]))
         elif t == "S":
-            out.append(M.String(d[1], d[2], d[3], d[4]))
+            out.append(M.String(key(d[1]), d[2], d[3], d[4]))
         elif t == "P":
             out.append(M.Preamble(d[1], d[2], d[3]))
         elif t == "C":
@@ -152,6 +242,15 @@ def build_universe(n):
         else:
             out.append(M.ParsingFailedBlock(Exception("boom"), d[1], d[2]))
     return out
+
+
+def plain(b):
+    """what a caller can see of one of its blocks, for cases without a model encoding (keys by identity and repr)"""
+    k = getattr(b, "key", None)
+    fs = getattr(b, "fields", None) if type(b).__name__ == "Entry" else None
+    return (type(b).__name__, id(k), repr(k), type(k).__name__, b.start_line, b.raw, getattr(b, "entry_type", None),
+            None if fs is None else [(id(f), f.key, f.value, f.start_line) for f in fs],
+            getattr(b, "value", None), getattr(b, "comment", None))
 
 
 VIEWS = ["blocks", "entries", "entries_dict", "strings", "strings_dict", "preambles", "comments", "failed_blocks"]
@@ -182,7 +281,7 @@ def check_inv(M, s):
         if len(set(keys)) != len(keys):
             return "two held %s share a key: %r" % (name, keys)
         if set(d.keys()) != set(keys):
-            return "%s_dict keys %r differ from the held keys %r" % (name, sorted(d), sorted(keys))
+            return "%s_dict keys %r differ from the held keys %r" % (name, sorted(d, key=repr), sorted(keys, key=repr))
         for b in held:
             if d[b.key] is not b:
                 return "%s_dict[%r] is not the held block" % (name, b.key)
@@ -220,8 +319,9 @@ def impl(case):
     from bibtexparser import model as M
     from bibtexparser.library import Library
     inp = case["input"]
-    uni = build_universe(inp["uni"])
-    uni_enc = [enc.enc_block(b) for b in uni]
+    modelled = "keyobjs" not in inp
+    uni = build_universe(inp["uni"], inp.get("keys"), inp.get("keyobjs"))
+    uni_enc = [enc.enc_block(b) for b in uni] if modelled else [plain(b) for b in uni]
     oid = {id(b): j for j, b in enumerate(uni)}
     wid = {}
     keep = []                       # keeps every object we numbered alive
@@ -242,6 +342,8 @@ def impl(case):
         return [-5]
 
     def enc_views(outcome, s):
+        if not modelled:
+            return None
         return [outcome, [ob(b) for b in s["blocks"]], [ob(b) for b in s["entries"]],
                 [[enc.enc_str(k), ob(b)] for k, b in s["entries_dict"].items()],
                 [ob(b) for b in s["strings"]],
@@ -368,10 +470,14 @@ def impl(case):
                 problems.append(where + "replace moved other blocks")
             elif not (ab[idx] is new or (wraps(M, ab[idx], new) and op["fail"] == 0)):
                 problems.append(where + "position %d does not hold the new block" % idx)
-    if [enc.enc_block(b) for b in uni] != uni_enc:
+    if ([enc.enc_block(b) for b in uni] if modelled else [plain(b) for b in uni]) != uni_enc:
         problems.append("a caller's block was modified")
-    sx_in = [30, uni_enc, sx_ops]
-    rec = {"sx_in": sx_in, "sx_out": implutil.r_ok(outs), "key": json.dumps(inp, sort_keys=True),
+    if "keys" in inp:
+        tags.add("keys:empty" if "" in inp["keys"] else "keys:boundary")
+    if not modelled:
+        tags.add("keys:not-str")
+    sx_in = [30, uni_enc, sx_ops] if modelled else None
+    rec = {"sx_in": sx_in, "sx_out": implutil.r_ok(outs) if modelled else None, "key": json.dumps(inp, sort_keys=True),
            "nontrivial": interesting, "tags": sorted(tags),
            "summary": repr([type(b).__name__[:5] + ":" + str(getattr(b, "key", "")) for b in (lib.blocks if lib else [])])[:200]}
     if problems:
